@@ -179,7 +179,7 @@ func (e *ev) runTpl(t *Tpl) {
 	if pt == nil {
 		fail("parent template not found: " + pname)
 	}
-	if len(e.chain) > 8 {
+	if len(e.chain) > 20 {
 		leave("inheritance depth")
 	}
 	e.chain = append(e.chain, collectBlocks(pt))
